@@ -82,6 +82,7 @@ func run(c *fw.Ctx) {
 		hc.CloseIdleConnections()
 		we.Close()
 	}
+	c.Cases("maxkb", c.N(60, 900), func(i int, r *fw.Rand) { runMaxKB(c, i, r) })
 }
 
 type caseCtx struct {
